@@ -258,9 +258,16 @@ class MultiMatcher(mcore.Matcher):
         return skipped
 
     def max_quality(self):
+        # Like every other matcher, an exhausted matcher answers (nothing is
+        # left, so 0) instead of raising ValueError from max() of nothing
+        if not self.is_active():
+            return 0
         return max(m.max_quality() for m in self.matchers[self.current:])
 
     def block_quality(self):
+        # ...and instead of IndexError from indexing past the last sub-matcher
+        if not self.is_active():
+            return 0
         return self.matchers[self.current].block_quality()
 
     def weight(self):
